@@ -119,7 +119,8 @@ def materialise(layout, ids, individuals):
                 r["DV"] = 10.0 + rn
                 mdv = 0
             elif kind in ("D", "D1", "D2", "DA", "DB", "DS", "DR", "E4", "E41", "E42"):
-                r["AMT"] = 100.0 + 10.0 * j
+                # amounts include fractional ones below one unit (a dose is any record with AMT != 0)
+                r["AMT"] = (100.0, 0.5, 30.0, 0.25, 7.5, 0.75)[j % 6] + (10.0 * (j // 6))
                 evid = 4 if kind.startswith("E4") else 1
                 cmt = 2 if kind in ("D2", "E42") else 1
                 admid = cmt
